@@ -33,6 +33,16 @@ warnings.filterwarnings("ignore")
 PID = "C07"
 MODULES = ["OpacusLean.Props.C07"]
 THEOREMS = [
+    "Opacus.C07.aligned_domain_zero_bin",
+    "Opacus.C07.self_compose_roll_correct",
+    "Opacus.C07.self_compose_no_wrap",
+    "Opacus.C07.compose_two_centre",
+    "Opacus.C07.compose_two_comm",
+    "Opacus.C07.compose_two_comm_domain",
+    "Opacus.C07.domain_shift_add",
+    "Opacus.C07.compose_two_mass",
+    "Opacus.C07.tree_mass",
+    "Opacus.C07.computeDeltaEstimate_eq_hockey",
     "Opacus.C07.eps_triple_ordered",
     "Opacus.C07.find_epsilon_inverts_hockey_stick",
 ]
